@@ -543,13 +543,18 @@ class Evolver:
         if focus == "deep-mixin":
             b, mname, s = self.fresh_type_name("VfDb"), self.fresh_type_name("VfDx"), self.fresh_type_name("VfDy")
             local: set = set()
-            self.doc["structures"].append({"name": b, "properties": [self.new_property(local), self.new_property(local)]})
+            # (the base contributes a required property; the leaf is the params of a message, so test vectors exist for it)
+            self.doc["structures"].append({"name": b, "properties": [self.new_property(local, force="base", optional=False), self.new_property(local)]})
             self.doc["structures"].append({"name": mname, "properties": [self.new_property(local)], "extends": [{"kind": "reference", "name": b}],
                                            "mixins": [{"kind": "reference", "name": self.pick([x for x in ("WorkDoneProgressParams", "PartialResultParams") if any(y["name"] == x for y in self.doc["structures"])] or [b])}]})
             self.doc["structures"].append({"name": s, "properties": [self.new_property(local)], "mixins": [{"kind": "reference", "name": mname}]})
             self.keep_inhabitable([p for st_ in self.doc["structures"][-3:] for p in st_["properties"]])
             self.new_structs += [b, mname, s]
             self.edits.append({"edit": "E1-diamond", "structures": [b, mname, s], "property": "(deep mixin)"})
+            self.counter += 1
+            self.doc["requests"].append({"method": f"vf/deepMixin{self.counter}", "messageDirection": "clientToServer", "params": {"kind": "reference", "name": s},
+                                         "result": {"kind": "or", "items": [{"kind": "reference", "name": s}, {"kind": "base", "name": "null"}]}})
+            self.edits.append({"edit": "E6-new-message", "method": f"vf/deepMixin{self.counter}", "request": True})
             return
         if focus == "confusing-message-names":
             self.e_new_message(is_request=False, with_type_name=True, type_name_infix="Request")
